@@ -311,9 +311,26 @@ func (r *yieldRewriter) rewriteStmt(
 		// no rewriting, no combine
 		// a yield inside would be kept as a call of the no-op stub and silently dropped
 		r.assert(r.mustNoYield(stmt), stmt, "yield not supported in %T", stmt)
+		// and a defer inside (e.g. in the body of a range that stays native)
+		// would run when the generated thunk returns, not when the yield func does
+		r.assert(!containsDefer(stmt), stmt, "defer not supported in %T", stmt)
 		children.push(stmt, kindTrival)
 		return children
 	}
+}
+
+// whether the stmt contains a defer stmt of its own (not of a nested func lit)
+func containsDefer(stmt ast.Stmt) (contains bool) {
+	ast.Inspect(stmt, func(n ast.Node) bool {
+		switch n.(type) {
+		case *ast.FuncLit:
+			return false
+		case *ast.DeferStmt:
+			contains = true
+		}
+		return !contains
+	})
+	return
 }
 
 func (r *yieldRewriter) rewriteBlockStmt(
